@@ -9,7 +9,7 @@ EXPLANATION = ("Relational product with symbolic scale factors: every dimensiona
                "real code each returned field equals the original times the monomial of its own dimension, and each path condition is homogeneous (the scaled request follows the same path). These are generalised-monomial "
                "identities with symbolic exponents, decided by the ring back end.")
 ASSUMPTIONS = ["covered solvers: Noh, Coggeshall 19, Kenamond 1-3 (2-D), DSD cylindrical expansion, Blake, elastic-plastic piston (constructor-derived states), ideal-gas Riemann (region states and wave speeds, bisect root "
-               "scales like a pressure by homogeneity of the root equation), heat rod BC1-BC4 (term-wise), Hutchens 1 (term-wise); Noh2, Sedov, Guderley, Mader, EHEP and the remaining Coggeshall solutions are not yet under contract here",
+               "scales like a pressure by homogeneity of the root equation), heat rod BC1-BC4 (term-wise), Hutchens 1 (term-wise), Noh2 with the time unit fixed (its documented initial condition u(r,0) = -r fixes the collapse time to 1: mass and length scale factors free, lambda_T := 1), Mader, EHEP, Sedov shock state, SDRZ, Guderley density scale (see their kits); the remaining Coggeshall solutions and the radiative shocks are not under contract here",
                "A5 determinism of SciPy routines as functions of their (scaled) arguments: a root of a homogeneous equation scales with its unknown"]
 lM, lL, lT, lTh = sp.symbols('lambda_M lambda_L lambda_T lambda_Theta', positive=True)
 DENS = (1, -3, 0, 0); PRES = (1, -1, -2, 0); SIE = (0, 2, -2, 0); VEL = (0, 1, -1, 0); LEN = (0, 1, 0, 0); TIME = (0, 0, 1, 0); TEMP = (0, 0, 0, 1); ONE = (0, 0, 0, 0)
@@ -46,7 +46,7 @@ print(json.dumps({'reproduced': bool(bad), 'mismatch (original units, changed un
 """
 
 
-def native_scale(target, kw_sym, pos_sym, t_sym, dims_in, dims_out, raw):
+def native_scale(target, kw_sym, pos_sym, t_sym, dims_in, dims_out, raw, fixed=None):
     """replay script: the real solver at the counterexample and at the same request expressed in the changed units"""
     from props.c20 import kw_at, pyv
     mod, cls = target.split(':')
@@ -56,6 +56,7 @@ def native_scale(target, kw_sym, pos_sym, t_sym, dims_in, dims_out, raw):
             if isinstance(q, sp.Basic): syms |= q.free_symbols
     pt = {s_: sp.sympify(raw.get(s_.name, 1)) for s_ in syms}
     lam = {l_: sp.sympify(raw.get(l_.name, 2)) for l_ in (lM, lL, lT, lTh)}
+    for l_, v_ in (fixed or {}).items(): lam[l_] = sp.sympify(v_)
     pts = {s_: (v * mono(dims_in[s_]).subs(lam) if s_ in dims_in else v) for s_, v in pt.items()}
     def at(v, P):
         if isinstance(v, (list, tuple)): return [at(q, P) for q in v]
@@ -64,8 +65,10 @@ def native_scale(target, kw_sym, pos_sym, t_sym, dims_in, dims_out, raw):
     return SCALE_NATIVE % dict(mod=mod, cls=cls, kw=kw_at(kw_sym, pt), kws=kw_at(kw_sym, pts), pos=at(pos_sym, pt), poss=at(pos_sym, pts), t=at(t_sym, pt), ts=at(t_sym, pts), fac=fac)
 
 
-def check(name, paths, hyps, dims_in, dims_out, syms, sums=None, positive=(), nat=None):
-    out = []; sub = scale_sub(dims_in)
+def check(name, paths, hyps, dims_in, dims_out, syms, sums=None, positive=(), nat=None, fixed=None):
+    """fixed: scale factors pinned to 1 (a unit the documentation of the problem fixes, e.g. the time unit of Noh2 whose initial condition is u(r,0) = -r)"""
+    out = []; sub = scale_sub(dims_in); fixed = dict(fixed or {})
+    if fixed: sub = {k_: v_.subs(fixed) for k_, v_ in sub.items() if v_.subs(fixed) != k_}
     for i, p in enumerate(paths):
         if p.outcome != 'return' or not isinstance(p.value, Solution): continue
         h = list(hyps) + list(p.pc)
@@ -77,10 +80,10 @@ def check(name, paths, hyps, dims_in, dims_out, syms, sums=None, positive=(), na
             if v.has(sp.Abs): v = v ** 2; d = tuple(2 * q for q in d)        # |x| fields: compare squares
             if sums:
                 for s_ in getattr(p.run, 'sums', []): v = v.subs(s_['symbol'], s_['term'])      # term-wise (linear in the sum)
-            o = core.prove_zero('%s/path%d/%s' % (name, i, n), v.subs(sub, simultaneous=True) - mono(d) * v, h, goal_text='%s(scaled inputs) == %s * %s(inputs)' % (n, mono(d), n),
+            o = core.prove_zero('%s/path%d/%s' % (name, i, n), v.subs(sub, simultaneous=True) - mono(d).subs(fixed) * v, h, goal_text='%s(scaled inputs) == %s * %s(inputs)' % (n, mono(d).subs(fixed), n),
                                 extra_syms=set(syms) | {lM, lL, lT, lTh}, positive=positive)
             if nat and o['status'] == 'refuted' and o.get('cex_raw'):
-                try: o['replay'] = native_scale(nat[0], nat[1], nat[2], nat[3], dims_in, dims_out, o['cex_raw'])
+                try: o['replay'] = native_scale(nat[0], nat[1], nat[2], nat[3], dims_in, dims_out, o['cex_raw'], fixed=fixed)
                 except Exception as e_: o['detail'] = 'no native replay: %s' % str(e_)[:100]
             o.pop('cex_raw', None); out.append(o)
         # path conditions are homogeneous: sign-preserving under the scaling
@@ -115,12 +118,16 @@ def check(name, paths, hyps, dims_in, dims_out, syms, sums=None, positive=(), na
 def unit_hydro(key):
     sc = hydro.SOLVERS[key]; res = {'obligations': [], 'functions': sc.function_info(), 'engine_errors': []}
     for case in sc.cases:
-        dims = {sc.pos: LEN, sc.t: TIME, sc.params['rho0']: DENS, sc.params['u0']: VEL}
+        dims = {sc.pos: LEN, sc.t: TIME, sc.params['rho0']: DENS, sc.params['u0']: VEL} if key != 'noh2' else {}
         outd = {'density': DENS, 'pressure': PRES, 'specific_internal_energy': SIE, 'velocity': VEL}
         if key == 'cog19':
             dims[sc.params['Gamma']] = (0, 2, -2, -1); outd['temperature'] = TEMP
+        fixed = None; nat = (sc.cls, sc.kwargs(case), sc.pos, sc.t)
+        if key == 'noh2':
+            # Noh2's documented initial condition u(r,0) = -r (collapse at t = 1) fixes the time unit: mass and length units stay free
+            dims = {sc.pos: LEN, sc.params['rho0']: DENS, sc.params['e0']: SIE}; fixed = {lT: 1}
         try:
-            res['obligations'] += check('C08/%s/%s' % (key, sc.case_name(case)), sc.paths(case), sc.all_hyps(case), dims, outd, sc.symbols(), nat=(sc.cls, sc.kwargs(case), sc.pos, sc.t))
+            res['obligations'] += check('C08/%s/%s' % (key, sc.case_name(case)), sc.paths(case), sc.all_hyps(case), dims, outd, sc.symbols(), nat=nat, fixed=fixed)
         except Unsupported as u:
             res['obligations'].append(core.Obl('C08/%s/%s/extraction' % (key, sc.case_name(case)), 'open', 'extraction', 0.0, detail=str(u)[:150]))
     return res
@@ -257,7 +264,7 @@ def unit_ehep():
 
 
 def units(tier):
-    us = [('noh', {'kind': 'hydro', 'key': 'noh'}), ('cog19', {'kind': 'hydro', 'key': 'cog19'})]
+    us = [('noh', {'kind': 'hydro', 'key': 'noh'}), ('cog19', {'kind': 'hydro', 'key': 'cog19'}), ('noh2', {'kind': 'hydro', 'key': 'noh2'})]
     us += [(k, {'kind': 'burn', 'key': k}) for k in ('k1_2d', 'k2_2d', 'k3_2d', 'dsd')]
     us += [('blake', {'kind': 'blake'})] + [('ep_piston/' + m, {'kind': 'piston', 'model': m}) for m in ('hypo', 'hyperIfin', 'hyperFin')]
     us += [('riemann/' + p, {'kind': 'riemann', 'pat': p}) for p in ('SCS', 'SCR', 'RCS', 'RCR')] + [('rod1d/' + b, {'kind': 'heat', 'bc': b}) for b in ('BC1', 'BC2', 'BC3', 'BC4')]
